@@ -7,11 +7,11 @@ namespace gen {
 
 static const ref::u128 U1 = 1;
 static inline ref::u128 boundary_value(Ctx &c) {
-    static const int sh[] = {7, 14, 21, 28, 31, 32, 35, 42, 49, 56, 62, 63, 64, 70};
+    static const int sh[] = {7, 14, 21, 28, 31, 32, 35, 42, 49, 56, 62, 63, 64, 70, 31, 32, 63, 64, 64, 64};
     switch (c.draw(5)) {
     case 0: return c.draw(3);
     case 1: return 127 + c.draw(2);
-    case 2: { ref::u128 b = U1 << sh[c.pick(14)]; uint64_t k = c.draw(4); return k == 0 ? b - 1 : k == 1 ? b : k == 2 ? b + 1 : k == 3 ? b + c.draw(70000) : b - 1 - c.draw(70000); }
+    case 2: { ref::u128 b = U1 << sh[c.pick(20)]; uint64_t k = c.draw(4); return k == 0 ? b - 1 : k == 1 ? b : k == 2 ? b + 1 : k == 3 ? b + c.draw(70000) : b - 1 - c.draw(70000); }
     case 3: return c.draw(70000);
     case 4: return ((ref::u128)c.u64() << (c.boolean() ? 6 : 0)) | c.draw(63);
     default: return c.u64();
@@ -22,15 +22,19 @@ static inline ref::u128 boundary_value(Ctx &c) {
 static inline std::string mutate_field(Ctx &c, ref::Fields &F) {
     std::vector<size_t> ints, blobs;
     for (size_t i = 0; i < F.f.size(); i++) (F.f[i].kind == ref::Fld::INT ? ints : blobs).push_back(i);
+    // integers that steer the parser (sizes, counts, types) are picked half of the time; otherwise any integer
+    std::vector<size_t> steer;
+    for (size_t i : ints) { const std::string &n = F.f[i].name; if (n.find('.') == std::string::npos || n.find(".size") != std::string::npos || n[0] == 'o') steer.push_back(i); }
+    auto pick_int = [&]() { return (!steer.empty() && c.boolean()) ? steer[c.pick(steer.size())] : ints[c.pick(ints.size())]; };
     auto nm = [&](size_t i) { return F.f[i].name; };
     auto u128s = [](ref::u128 v) { char b[64]; if (v >> 64) snprintf(b, sizeof b, "0x%llx%016llx", (unsigned long long)(v >> 64), (unsigned long long)v); else snprintf(b, sizeof b, "%llu", (unsigned long long)v); return std::string(b); };
     switch (c.draw(11)) {
-    case 0: case 1: { size_t i = ints[c.pick(ints.size())]; ref::Fld &x = F.f[i]; x.v = boundary_value(c); x.autoval = false; return nm(i) + ":=" + u128s(x.v); }
-    case 2: { size_t i = ints[c.pick(ints.size())]; ref::Fld &x = F.f[i]; int64_t d = (int64_t)c.draw(6) - 3; if (d >= 0) d++;
+    case 0: case 1: { size_t i = pick_int(); ref::Fld &x = F.f[i]; x.v = boundary_value(c); x.autoval = false; return nm(i) + ":=" + u128s(x.v); }
+    case 2: { size_t i = pick_int(); ref::Fld &x = F.f[i]; int64_t d = (int64_t)c.draw(6) - 3; if (d >= 0) d++;
               if (x.autoval) { x.adj += d; return nm(i) + "(auto)+=" + std::to_string(d); }
               x.v = (ref::u128)(uint64_t)((uint64_t)x.v + (uint64_t)d); return nm(i) + "+=" + std::to_string(d); }
-    case 3: { size_t i = ints[c.pick(ints.size())]; ref::Fld &x = F.f[i]; x.pad = 1 + c.draw(10); return nm(i) + " encoded in " + std::to_string(x.pad) + " bytes"; }
-    case 4: { size_t i = ints[c.pick(ints.size())]; ref::Fld &x = F.f[i]; x.raw_set = true; size_t n = 1 + c.draw(11); x.raw.clear();
+    case 3: { size_t i = pick_int(); ref::Fld &x = F.f[i]; x.pad = 1 + c.draw(10); return nm(i) + " encoded in " + std::to_string(x.pad) + " bytes"; }
+    case 4: { size_t i = pick_int(); ref::Fld &x = F.f[i]; x.raw_set = true; size_t n = 1 + c.draw(11); x.raw.clear();
               uint64_t style = c.draw(2);
               for (size_t k = 0; k < n; k++) x.raw.push_back(style == 0 ? (uint8_t)c.draw(0x7f) : style == 1 ? 0x7f : (uint8_t)c.draw(255));
               if (style == 1 && c.boolean()) x.raw.back() |= 0x80;
